@@ -1,7 +1,14 @@
 #!/bin/sh
-# builds the govc engine offline
+# Builds the govc engine offline and warms the Go build cache for the packages under contract
+# (export data with -tags=verif), so that the first check does not pay for it.
 set -e
 cd "$(dirname "$0")"
 export PATH=/opt/veriftools/go1.26.8/bin:$PATH GOFLAGS=-mod=mod GOPROXY=off GOSUMDB=off GOTOOLCHAIN=local
 mkdir -p bin evidence replays
 (cd govc && go build -o ../bin/govc .)
+pkgs=$(python3 -c "
+import json
+s=set()
+for v in json.load(open('props.json')).values(): s.update(v['pkgs'])
+print(' '.join(sorted(s)))")
+(cd /repo && go build -tags=verif $pkgs istio.io/istio/pkg/verif) || true
